@@ -215,6 +215,10 @@ func buildBatches(res *evid.Result, root string, thorough bool) []*batch {
 		for _, sz := range []int{maxSourceSize, maxSourceSize + 1, maxSourceSize + 4096, 3 * maxSourceSize} {
 			f := writeModule(filepath.Join(b.dir, fmt.Sprintf("s%d", sz)), "p.go", genSizedFile(sz))
 			b.cases = append(b.cases, Case{ID: fmt.Sprintf("size/%d", sz), Family: "source-file-size", Kind: "size", File: f, Base: base, Params: []int{sz}})
+			if sz == maxSourceSize || sz == maxSourceSize+4096 {
+				// the same bytes through a named pipe, whose reported size is 0
+				b.cases = append(b.cases, Case{ID: fmt.Sprintf("size-stream/%d", sz), Family: "source-file-size", Kind: "size-stream", File: f, Base: base, Params: []int{sz}})
+			}
 		}
 		saveBatch(b)
 	}
@@ -907,7 +911,7 @@ func judgeSize(res *evid.Result, all []Rec) {
 		}
 	}
 	res.Set("size_guard", summary)
-	if over < 8 || within < 4 {
+	if over < 10 || within < 6 {
 		res.Broken = fmt.Sprintf("file-size workload incomplete (over=%d within=%d)", over, within)
 	}
 }
